@@ -36,8 +36,9 @@ def load_baseline(pid):
     return None
 
 
-def native_batch(qual, n, seed, limit_s, case_timeout=20):
-    payload = json.dumps({"qual": qual, "gen": n, "seed": seed, "limit_s": limit_s, "case_timeout": case_timeout})
+def native_batch(qual, n, seed, limit_s, case_timeout=20, known=()):
+    payload = json.dumps({"qual": qual, "gen": n, "seed": seed, "limit_s": limit_s, "case_timeout": case_timeout,
+                          "known": [k.get("match", []) for k in known if k.get("match")]})
     env = dict(os.environ)
     env["PYTHONPATH"] = VERIF + os.pathsep + env.get("PYTHONPATH", "")
     try:
@@ -116,7 +117,16 @@ def check_property(pid, tier, seed):
             continue
         bad = [r for r in rs if r.status == solve.SAT]
         if not bad:
-            undecided.append((name, "solver: " + "; ".join(sorted({r.reason or "unknown" for r in rs if r.status != solve.UNSAT}))))
+            # undecided by the solvers: look for a candidate counterexample (quantified assumptions dropped) and replay it;
+            # only a natively reproduced failure counts
+            unk = [r for r in rs if r.status != solve.UNSAT]
+            v = handle_refuted(run, prop, per_fn, name, unk, None, known, candidate_only=True)
+            if v["class"] == "violation":
+                violations.append(v)
+            elif v["class"] == "known":
+                known_hits.append(v)
+            else:
+                undecided.append((name, "solver: " + "; ".join(sorted({r.reason or "unknown" for r in unk}))))
             continue
         # a refuted obligation: replay
         v = handle_refuted(run, prop, per_fn, name, bad, baseline, known)
@@ -136,9 +146,11 @@ def check_property(pid, tier, seed):
         if nat is None or nat.gen is None:
             continue
         limit = 40 if tier == "quick" else 600
-        res = native_batch(q, n_cases, seed, limit, case_timeout=getattr(prop, "CASE_TIMEOUT", 20))
+        res = native_batch(q, n_cases, seed, limit, case_timeout=getattr(prop, "CASE_TIMEOUT", 20), known=known)
         entry = {"function": q, "bounded": True, "bound": nat.bound or f"{n_cases} generated inputs (seed {seed})",
                  "evaluations": res.get("evaluations", 0), "distinct": res.get("distinct", 0), "failures": len(res.get("failures", [])), "samples": res.get("samples", [])[:2]}
+        if res.get("ok") is False and not res.get("failures"):
+            res["ok"] = True
         bounded.append(entry)
         if res.get("ok") is None and not res.get("failures"):
             faults.append(f"native harness of {q}: {res.get('detail')}")
@@ -167,6 +179,10 @@ def check_property(pid, tier, seed):
             for ft in entry.pop("faults", []):
                 faults.append(ft)
             bounded.append(entry)
+
+    # an undecided obligation that a recorded finding explains, and whose finding was reproduced natively in this run, is that finding
+    explained = {n for k in known_hits for n in k["finding"].get("explains", [])}
+    undecided = [(n, w) for n, w in undecided if n not in explained]
 
     # 3. evidence
     n_obl = len(all_names)
@@ -258,13 +274,15 @@ def match_known(known, name, text):
     return None
 
 
-def handle_refuted(run, prop, per_fn, name, bad, baseline, known):
+def handle_refuted(run, prop, per_fn, name, bad, baseline, known, candidate_only=False):
     """A named obligation has a satisfiable negation on some path: build a replay and classify."""
     r = bad[0]
     obl = r.obl
     qual = obl.extra.get("vname") or obl.func
     ex = per_fn[qual][0] if qual in per_fn else None
-    model = solve.model_for(obl, ex.axioms if ex else [], timeout_ms=run.timeout_ms) if ex else None
+    model = solve.model_for(obl, ex.axioms if ex else [], timeout_ms=min(run.timeout_ms, 20000), drop_quantified=candidate_only) if ex else None
+    if candidate_only and model is None:
+        return {"class": "undecided", "name": name, "note": "undecided"}
     inputs = None
     if model is not None and ex is not None:
         try:
@@ -297,7 +315,7 @@ def handle_refuted(run, prop, per_fn, name, bad, baseline, known):
         except Exception as e:
             payload["native_error"] = repr(e)
     # (b) bounded search with the run-time contract
-    if reproduced is not True and nat is not None and nat.gen is not None:
+    if reproduced is not True and nat is not None and nat.gen is not None and not candidate_only:
         res = native_batch(qual, 400, run.seed, 60)
         payload["native_search"] = {k: res.get(k) for k in ("evaluations", "ok")}
         fails = [f for f in res.get("failures", []) if f["ok"] is False]
@@ -323,6 +341,8 @@ def handle_refuted(run, prop, per_fn, name, bad, baseline, known):
     if reproduced:
         path = run.write_replay(name, payload)
         return {"class": "violation", "name": name, "replay": path, "suffix": ""}
+    if candidate_only:
+        return {"class": "undecided", "name": name, "note": "undecided"}
     if baseline is not None and name in baseline:
         payload["note"] = "obligation was discharged on the unchanged tree and is now refuted by the solver; no concrete failing input could be constructed"
         path = run.write_replay(name, payload)
